@@ -8,7 +8,7 @@ import random
 from multiprocessing import Pool
 
 from . import tables
-from .core import Ctx, MachineryError, NCPU
+from .core import Ctx, Guarded, MachineryError, NCPU
 
 CFG = ("SPECIFICATION Spec\nINVARIANT HonestVerifies\nINVARIANT OnlyCanonical\nINVARIANT MalformedRejected\n"
        "INVARIANT AggregateTheorem\nINVARIANT Dump\n")
@@ -709,12 +709,12 @@ def run(ctx: Ctx, focus):
     ctx.log(f"bls: running {len(jobs)} scenarios ({len(chosen)} enumerated by TLC, {len(extra)} random), "
             f"{len(sk_jobs)} secret-key cases, {len(kg_jobs)} KeyGen cases, {len(agg_jobs)} Aggregate cases on the real library")
     with Pool(NCPU, initializer=_init_worker) as pool:
-        r_run = pool.map_async(_run_scenario, jobs, chunksize=1)
-        r_sk = pool.map_async(_run_sk, sk_jobs, chunksize=1)
-        r_kg = pool.map_async(_run_keygen, kg_jobs, chunksize=1)
-        r_ag = pool.map_async(_run_agg, agg_jobs, chunksize=1)
-        r_sq = pool.map_async(_run_seq, seq_jobs, chunksize=1)
-        r_ch = pool.map_async(_run_chain, chains, chunksize=1)
+        r_run = pool.map_async(Guarded(_run_scenario), jobs, chunksize=1)
+        r_sk = pool.map_async(Guarded(_run_sk), sk_jobs, chunksize=1)
+        r_kg = pool.map_async(Guarded(_run_keygen), kg_jobs, chunksize=1)
+        r_ag = pool.map_async(Guarded(_run_agg), agg_jobs, chunksize=1)
+        r_sq = pool.map_async(Guarded(_run_seq), seq_jobs, chunksize=1)
+        r_ch = pool.map_async(Guarded(_run_chain), chains, chunksize=1)
         rows_run, rows_sk, rows_kg, rows_ag = r_run.get(), r_sk.get() + r_sq.get(), r_kg.get(), r_ag.get()
         rows_run = rows_run + [r for ch in r_ch.get() for r in ch]
     # (B) spec -> code: the returned boolean must be the one TLC predicted for the enumerated scenario
